@@ -193,6 +193,9 @@ def run_c18(tier, seed):
         ids = rnd.sample(NODE_IDS, rnd.randint(2, 6))
         if i % 3:
             contexts = [('m1', 'p1')]
+        elif i % 4 == 1:
+            # separators in the model name / pipeline id: ('m', 'a/b') and ('m/a', 'b') are different keys
+            contexts = [('m', 'a/b'), ('m/a', 'b'), ('m', '../other/p'), ('other', 'p'), ('m', 'a%2Fb')]
         elif i % 2:
             contexts = [('m1', 'p1'), ('m1', 'p2'), ('m2', 'p1'), ('m1.x', 'p1')]
         else:
@@ -294,9 +297,15 @@ def builder_decl_sets(tier, seed):
             progs.append(p)
     for i in range(60 if quick else 600):
         progs.append(gen.random_program(seed, i, modes=True))
-    for p in progs:
+    for k, p in enumerate(progs):
         d = decls.from_program(p)
         out.append(d)
+        if k % 7 == 3:
+            # the same declarations in a module with postponed evaluation of annotations
+            df = decls.from_program(p)
+            df['future'] = True
+            df['name'] += '~future'
+            out.append(df)
         r = rnd.random()
         if r < 0.35:
             # permuted parameter (declaration) order: the graph must not depend on it (head ids follow the order)
@@ -361,6 +370,11 @@ def builder_decl_sets(tier, seed):
         P('plainbase_nodes', [N('A'), N('F', plainbase=True), N('B', I('p1', 'A'), plainbase=True),
                               N('O', I('p1', 'B'), I('p2', 'F'))], 'A', 'O'),
         P('plainbase_io', [N('A', plainbase=True), N('B', I('p1', 'A')), N('O', I('p1', 'B'), I('p2', 'A'), plainbase=True)], 'A', 'O'),
+        # the output node is the input node
+        P('input_is_output', [N('A')], 'A', 'A'),
+        # nodes with a node type of the user's own, as docs/usage_examples.md does ('ml_model')
+        P('custom_node_type', [N('A'), N('F', I('p1', 'A')), N('M', I('p1', 'F'), ntype='ml_model'),
+                               N('O', I('p1', 'M'), I('p2', 'A'), ntype='ml_model')], 'A', 'O'),
         # the destination of a recurrent sub-graph has a second, ordinary consumer that the traversal may meet first
         P('rec_dest_also_plain', [N('A'), N('S', I('p1', 'A')), N('D', I('p1', 'S')), N('R', RC('p1', 'S', 'D', 2)),
                                   N('Q', I('p1', 'D')), N('O', I('p1', 'R'), I('p2', 'Q'))], 'A', 'O'),
